@@ -229,9 +229,11 @@ Proof.
   (* the coefficients of the product polynomial *)
   set (c0 := A0 * B0) in *. set (q1 := A0 * B1 + A1 * B0). set (q2 := A0 * B2 + A1 * B1 + A2 * B0).
   set (q3 := A1 * B2 + A2 * B1). set (c4' := A2 * B2) in *.
-  assert (C0 : 0 <= c0 < X * X) by (subst c0; nia). assert (C1 : 0 <= q1 < 2 * (X * X)) by (subst q1; nia).
-  assert (C2 : 0 <= q2 < 3 * (X * X)) by (subst q2; nia). assert (C3 : 0 <= q3 < 2 * (X * X)) by (subst q3; nia).
-  assert (C4 : 0 <= c4' < X * X) by (subst c4'; nia).
+  assert (C0 : 0 <= c0 < X * X) by (clear - Ba0 Bb0 HX; subst c0; nia).
+  assert (C1 : 0 <= q1 < 2 * (X * X)) by (clear - Ba0 Ba1 Bb0 Bb1 HX; subst q1; nia).
+  assert (C2 : 0 <= q2 < 3 * (X * X)) by (clear - Ba0 Ba1 Ba2 Bb0 Bb1 Bb2 HX; subst q2; nia).
+  assert (C3 : 0 <= q3 < 2 * (X * X)) by (clear - Ba1 Ba2 Bb1 Bb2 HX; subst q3; nia).
+  assert (C4 : 0 <= c4' < X * X) by (clear - Ba2 Bb2 HX; subst c4'; nia).
   assert (T2 : (A0 + A2 + A1) * (B0 + B2 + B1) + (A0 + A2 - A1) * (B0 + B2 - B1) = (c0 + q2 + c4') * 2) by (subst c0 q2 c4'; ring).
   assert (T1 : 3 * c0 + (A0 + 2 * A1 + 4 * A2) * (B0 + 2 * B1 + 4 * B2) - 12 * c4' + 2 * ((A0 + A2 - A1) * (B0 + B2 - B1))
                = (c0 + q2 + q3 + c4') * 6) by (subst c0 q2 q3 c4'; ring).
@@ -239,31 +241,34 @@ Proof.
   (* t2 += V(-1) *)
   destruct (add_signed_same_len_in_place w t2a vs cev) as [t2b kt2] eqn:E15.
   destruct (add_signed_same_len_in_place_spec w w_pos t2a vs cev ltac:(lia) Wt2a Wcev _ _ E15) as (U15 & _).
-  pose proof (value_bounds w w_pos t2a Wt2a) as Bt2a. unfold len in Bt2a. rewrite Lt2a, Pm in Bt2a.
   assert (Kt2 : kt2 = 0).
-  { apply (upd_carry_range w w_pos t2a t2b kt2 _ Wt2a U15). unfold len. rewrite Lt2a, Pm, Vt2a, Vm1, T2. nia. }
+  { apply (upd_carry_range w w_pos t2a t2b kt2 _ Wt2a U15). unfold len. rewrite Lt2a, Pm, Vt2a, Vm1, T2.
+    clear - C0 C2 C4 HB2 HX. nia. }
   destruct U15 as (Lt2b & Wt2b & Vt2b). subst kt2. cbn [Z.eqb negb]. rewrite Vt2a, Vm1, T2 in Vt2b. rewrite Lt2a in Lt2b.
   (* t1 += 2 V(-1) *)
+  assert (S6 : val t1b + sgnz vs * (2 * val cev) = (c0 + q2 + q3 + c4') * 6).
+  { rewrite <- T1. replace (sgnz vs * (2 * val cev)) with (2 * (sgnz vs * val cev)) by ring. rewrite Vm1. clear - Vt1b. lia. }
   assert (Ht1c : exists t1c, (match vs with
                   | Positive => add_mul_word_same_len_in_place w t1b 2 cev
                   | Negative => sub_mul_word_same_len_in_place w t1b 2 cev
                   end) = (t1c, 0) /\ length t1c = m /\ wfw t1c /\ val t1c = (c0 + q2 + q3 + c4') * 6).
-  { pose proof (value_bounds w w_pos cev Wcev) as Bcev.
-    destruct vs; cbn [sgnz] in Vm1.
+  { destruct vs; cbn [sgnz] in S6.
     - destruct (add_mul_word_same_len_in_place w t1b 2 cev) as [t1c k] eqn:E16.
       destruct (add_mul_word_same_len_spec w w_ge t1b 2 cev ltac:(lia) Wt1b Wcev ltac:(lia) _ _ E16) as (Lc' & Wc' & Bk & Vc').
       pose proof (value_bounds w w_pos t1c Wc') as Bc'. rewrite (len_eq t1c t1b Lc') in Bc'. unfold len in Bc', Vc'. rewrite Lt1b, Pm in Bc', Vc'.
-      assert (k = 0) by nia. subst k. exists t1c. repeat split; auto; [lia | nia].
+      assert (k = 0) by (clear - Vc' S6 Bc' Bk C0 C2 C3 C4 HB2 HX; nia). subst k.
+      exists t1c. split; [reflexivity|]. split; [lia|]. split; [exact Wc'|]. clear - Vc' S6. lia.
     - destruct (sub_mul_word_same_len_in_place w t1b 2 cev) as [t1c k] eqn:E16.
       destruct (sub_mul_word_same_len_spec w w_ge t1b 2 cev ltac:(lia) Wt1b Wcev ltac:(lia) _ _ E16) as (Lc' & Wc' & Bk & Vc').
       pose proof (value_bounds w w_pos t1c Wc') as Bc'. rewrite (len_eq t1c t1b Lc') in Bc'. unfold len in Bc', Vc'. rewrite Lt1b, Pm in Bc', Vc'.
-      assert (k = 0) by nia. subst k. exists t1c. repeat split; auto; [lia | nia]. }
+      assert (k = 0) by (clear - Vc' S6 Bc' Bk C0 C2 C3 C4 HB2 HX; nia). subst k.
+      exists t1c. split; [reflexivity|]. split; [lia|]. split; [exact Wc'|]. clear - Vc' S6. lia. }
   destruct Ht1c as (t1c & E16 & Lt1c & Wt1c & Vt1c). rewrite E16. cbn [Z.eqb negb].
   (* exact divisions *)
-  assert (Vt2b' : val t2b = (c0 + q2 + c4') * 2) by lia.
+  assert (Vt2b' : val t2b = (c0 + q2 + c4') * 2) by (clear - Vt2b; lia).
   rewrite Vt1c, Vt2b'. rewrite !Z.mod_mul, !Z.div_mul by lia. cbn [Z.eqb negb orb].
-  destruct (val_to_words_lt w w_ge m (c0 + q2 + q3 + c4') ltac:(rewrite Pm; nia)) as (Lu1 & Wu1 & Vu1).
-  destruct (val_to_words_lt w w_ge m (c0 + q2 + c4') ltac:(rewrite Pm; nia)) as (Lu2 & Wu2 & Vu2).
+  destruct (val_to_words_lt w w_ge m (c0 + q2 + q3 + c4') ltac:(rewrite Pm; clear - C0 C2 C3 C4 HB2 HX; nia)) as (Lu1 & Wu1 & Vu1).
+  destruct (val_to_words_lt w w_ge m (c0 + q2 + c4') ltac:(rewrite Pm; clear - C0 C2 C4 HB2 HX; nia)) as (Lu2 & Wu2 & Vu2).
   set (u1 := to_words w m (c0 + q2 + q3 + c4')) in *. set (u2 := to_words w m (c0 + q2 + c4')) in *.
   (* ---- interpolation *)
   destruct (add_signed_same_len_in_place w (slice n3 m c5) (sign_neg s) u1) as [x6 k1b] eqn:E17.
